@@ -4,6 +4,7 @@
    of the pinned commit (skip condition `err != nil && ok`, uint32 sums). *)
 From Verif Require Import Base.Util Model.V2 Proofs.V2Proofs Gen.Generated.
 From Verif Require Import Base.GenIR Gen.GeneratedTr Proofs.GenTrV2.
+From Verif Require Import Base.GenIR Gen.GeneratedTr Proofs.GenTrV2b.
 Open Scope N_scope.
 
 (* The block every key is built at is the upper median of the valid observations' blocks; when at
@@ -208,6 +209,54 @@ Theorem C16_gen_Report_loop_decisions :
   end.
 Proof. exact gen_v2_report_body. Qed.
 Print Assumptions C16_gen_Report_loop_decisions.
+
+End GenTie.
+
+Section GenTie.
+Local Open Scope Z_scope.
+(* ---- Tie to the source by translation (Gen/GeneratedTr.v, regenerated from /repo on every run by gen/translate.go) ----
+   g_* are the decision terms translated from the CURRENT Go code: every condition, the branch structure and which
+   white-listed effect statement runs on which path.  The theorems below state that the model's functions - about
+   which every theorem above speaks - are the interpretation of these terms. *)
+(* BasicEncoder.GetMedian: numeric sort, element at index len/2 (the upper median), 0 for no values *)
+Theorem C16_gen_GetMedian_steps :
+  forall n,
+  g_v2_GetMedian n = if n =? 0 then ([1; 2; 3], RetO 0) else ([1; 2; 4], RetO 0).
+Proof. exact gen_v2_GetMedian. Qed.
+Print Assumptions C16_gen_GetMedian_steps.
+
+(* ObservationsToUpkeepKeys, loop body: undecodable / invalid observations are counted and skipped, valid ones contribute their block key and at most ObservationUpkeepsLimit ids *)
+Theorem C16_gen_ObservationsToUpkeepKeys_loop :
+  forall (undecodable invalid : bool) n_ids limit,
+  g_v2_obs2keys_body undecodable invalid n_ids n_ids limit =
+  if undecodable || invalid then ([1], Cont)
+  else if 0 <? n_ids then (if limit <? n_ids then ([2; 3; 4], Fall) else ([2; 4], Fall)) else ([2], Fall).
+Proof. exact gen_v2_obs2keys_body. Qed.
+Print Assumptions C16_gen_ObservationsToUpkeepKeys_loop.
+
+(* ObservationsToUpkeepKeys, whole function: an error only when every observation was skipped *)
+Theorem C16_gen_ObservationsToUpkeepKeys_steps :
+  forall parse_errors n_obs (key_err : bool),
+  g_v2_obs2keys parse_errors n_obs key_err =
+  if parse_errors =? n_obs then ([1], RetO 1) else if key_err then ([1; 2; 3], RetO 2) else ([1; 2; 3], RetO 0).
+Proof. exact gen_v2_obs2keys. Qed.
+Print Assumptions C16_gen_ObservationsToUpkeepKeys_steps.
+
+(* v2 Observation: sample, shuffle, cut to the limit only when longer, encode with the length limit *)
+Theorem C16_gen_Observation_steps :
+  forall (observe_err : bool) n_ids limit (encode_err : bool),
+  g_v2_Observation observe_err n_ids limit encode_err =
+  if observe_err then ([1], RetO 1)
+  else ((if limit <? n_ids then [1; 2; 3; 4; 5; 6] else [1; 2; 3; 5; 6]), if encode_err then RetO 2 else RetO 0).
+Proof. exact gen_v2_Observation. Qed.
+Print Assumptions C16_gen_Observation_steps.
+
+(* polling observer Observe, loop body: an id is listed unless its key is pending (or the coordinator fails) *)
+Theorem C16_gen_Observe_filter :
+  forall pending err : bool,
+  g_v2_Observe_body pending err = if pending || err then ([], Cont) else ([1], Fall).
+Proof. exact gen_v2_Observe_body. Qed.
+Print Assumptions C16_gen_Observe_filter.
 
 End GenTie.
 
